@@ -66,10 +66,14 @@ def field_deviations(path, base_value, mode):
     if name in ("hash", "udValue") or (name == "message" and mode == "v1"):
         n = len(base_value) // 2
         v += HEXISH + ["aa" * (n - 1), "aa" * (n + 1), "aa" * n, "Aa" * n, ("aa " * n).strip(),
-                       "aa" * n + " ", "0x" + "aa" * n, "aa" * (n - 1) + "a"]
+                       "aa" * n + " ", "0x" + "aa" * n, "aa" * (n - 1) + "a",
+                       # every prefix / radix spelling a lenient parser might strip, around the exact length
+                       "0X" + "aa" * n, "0X" + "aa" * (n - 1), "0x" + "aa" * (n - 1), "0XAA" + "aa" * (n - 1),
+                       "x" + "aa" * n, "#" + "aa" * n, "\\x" + "aa" * n, "0x", "0X", "aa" * n + "h",
+                       "+" + "aa" * n, "-" + "aa" * n, "a_a" + "aa" * (n - 1)]
     if name in ("tx", "receipt", "witnessScript"):
         v += HEXISH + ["00", base_value[:-2], base_value + "00", base_value[:len(base_value) // 2],
-                       "ff" * 70000, base_value.upper(), " ".join(base_value[i:i + 2]
+                       "ff" * 70000, base_value.upper(), "0x" + base_value, "0X" + base_value, " ".join(base_value[i:i + 2]
                                                                  for i in range(0, len(base_value), 2))]
     if name == "input":
         v += [2, 255, 256, 65536, 2 ** 31, 2 ** 32 - 1, 2 ** 32, 2 ** 32 + 1, 2 ** 64, -2 ** 31, 1.0, "0"]
